@@ -214,6 +214,17 @@ add('C07', 'model_checking',
     TRUSTED + ' The fate of a child (completed / died / cut / not spawned) is read from its own event log, not from the plan.',
     'TLA+ spec + TLC model checking (safety + liveness) + spec-derived fault injection on the real runner + TLC validation', 'DESIGN.md 5/C07')
 
+add('C06', 'model_checking',
+    'TLC (Parallel.tla) explores every interleaving of the poll loop of resume_tests (start / reap / print / check), the '
+    'worker threads (Popen, relay, done in finally, kill + reap) and the children for k = 3 (thorough 4) and N = 2, 3, with a '
+    'rendezvous between children and with a failing Popen: AliveBound, Ordered, Complete and Term under per-process fairness; '
+    'five deviation configs give counterexamples. For every N in 2..k+1 TLC enumerates the feasible finish orders and each one '
+    'is forced on the real runner with file barriers (min(N,k) children parked at the same time, each released after the parent '
+    'reaped the previous one), in all three verbosity classes, plus the rendezvous schedule and a spawn failure; TLC compares '
+    'block order and content, live children at every Spawn, totals and lists with the sequential run of the same world.',
+    TRUSTED + ' "Alive" is counted between Popen returning and the child being reaped in the parent (interposed in the bootstrap).',
+    'TLA+ spec + TLC model checking (safety + liveness) + TLC-generated schedules forced on the real runner + TLC validation', 'DESIGN.md 5/C06')
+
 NOT_YET = {
 }
 
